@@ -173,7 +173,7 @@ CHECKS: dict[str, dict[str, str]] = {
                  "exhaustively. On secp256k1, sessions recorded from ecc.musig2 are recomputed by TLC (aggregate key, every partial verification, the aggregate, BIP340 "
                  "validity, adaptor round trip); ECDH/X9.63-KDF and BIE1 keys, BIP374 proofs with altered statements, BIP352 sender outputs (address order, "
                  "labels, repeats), both scanners and the spend key are recomputed from the TwoParty specification; ECIES round trips over every key spelling and "
-                 "ElligatorSwift exchanges are checked for agreement. BIP373 sessions run over a psbt (each signer on its own copy, combined, aggregated, finalized, spent) "
+                 "ElligatorSwift exchanges are checked for agreement, and the SwiftEC map and the x-only ECDH secret are recomputed (EllSwift) on three Koblitz curves incl. boundary field elements. BIP373 sessions run over a psbt (each signer on its own copy, combined, aggregated, finalized, spent) "
                  "are recomputed from what the psbt says in the four ways an aggregate key reaches the spent key (BIP341 tweak, BIP328 derivation, leaf key). Borromean ring "
                  "signatures and Pedersen commitments are specified generically (RingSig): signing is model-checked on the toy curve for every ring shape, signer position and "
                  "key, and secp256k1 signatures, six kinds of alteration and commitments are recomputed."),
